@@ -339,6 +339,7 @@ def timers(ctx: Any) -> List[Ob]:
     roots = [prog.func(r) for r in SHUTDOWN_ROOTS]
     shutdown_closure = set(x.full for x in cg.closure(roots, include_deferred=True))
     table = []
+    survivors: List[FuncInfo] = []
     for d in cg.deferred:
         if d.api == 'partial':
             continue
@@ -381,6 +382,20 @@ def timers(ctx: Any) -> List[Ob]:
                 continue
             table.append({'site': f'{d.caller.where()}:{d.call.lineno}', 'api': d.api, 'callback': cb.qual, 'class': how})
             obs.append(ob(R, d.caller, d.call, f'timer for {cb.qual} is cancelled at shutdown or quiet after close', bool(how), '; '.join(how) if how else 'handle not cancelled on any shutdown path, no done gate, reaches user callbacks: ' + '; '.join(b[:3])))
+            if how and not any(h.startswith(('handle stored', 'local handle')) for h in how):
+                survivors.append(cb)
+    # `no timer left behind raises`: a timer that is not cancelled at shutdown runs after close has returned, on whatever state
+    # the shutdown left (queues emptied, tables cleared) -- so every partial container access it can reach must be guarded
+    # (the C15.CONTAINERS obligations of the functions such a callback reaches)
+    if survivors:
+        from .c15 import containers as _containers
+
+        reach = {f.full for f in cg.closure(survivors, include_deferred=False)}
+        for o in _containers.fn(ctx):
+            if any(fi.module.rel == o.file and fi.qual == o.function for fi in ctx.prog.functions.values() if fi.full in reach):
+                o.rule = R
+                o.statement += ' -- reached from a timer that is left armed at close'
+                obs.append(o)
     # tasks
     for fn, sites in cg.sites.items():
         for s in sites:
